@@ -65,6 +65,11 @@ def main():
         # evidence files were rewritten by runs against a changed tree: restore committed ones
         sh("git checkout -- evidence", cwd="/verif")
         sh("rm -rf replays/*", cwd="/verif")
+    prev = os.path.join("/verif/seeded/%s" % sid, "meta.json")
+    if "--checks" in args and os.path.exists(prev):
+        old = json.load(open(prev)).get("checks", {})
+        old.update(results)
+        results = old
     out["checks"] = results
     out["caught_by"] = [c for c, r in results.items() if r["exit"] == 1]
     out["target_check_catches"] = results.get(prop, {}).get("exit") == 1
